@@ -30,7 +30,12 @@ geometry of ``mc.oracles.geometry``:
   midpoint) to end-origin (tip).
 * caller kwargs win over the visual-derived ones; stored visuals apply
   otherwise (reference model ``_expect`` written here, it does not call
-  ``define_mpl_kwargs``).
+  ``define_mpl_kwargs``).  Only keywords the artist class accepts are used,
+  and visual dictionaries proper to the artist kind (patch / marker / text;
+  the DS9-derived ones are literally what the DS9 reader stores).  An
+  exception is a violation: ``kwarg_override_raises`` when the same call
+  without the caller's kwargs succeeds (the keyword collides with the stored
+  attribute it should override), ``unexpected_exception`` otherwise.
 
 BAND.  The design note says "1 %"; that is an upper bound for the guard, the
 derived tolerance is far smaller: a cubic Bezier circle deviates by <= 2.8e-4
